@@ -40,6 +40,20 @@ Definition model_dests (s : st) : list dest :=
                    d_content := match tget (tmpf s) (e_tmp e) with Some c => c | None => "" end |})
       (pending s).
 
+(* the writer state holding the given pending destinations (temporary files numbered in order) *)
+Fixpoint entries_of (ds : list dest) (i : N) : list entry * tmps :=
+  match ds with
+  | [] => ([], [])
+  | d :: r =>
+      let '(es, ts) := entries_of r (N.succ i) in
+      ({| e_tmp := i; e_path := d_path d;
+          e_mode := {| m_r := false; m_w := d_write d; m_a := negb (d_write d); m_plus := false |} |} :: es,
+       (i, d_content d) :: ts)
+  end.
+Definition state_of (fs0 : fs) (ds : list dest) : st :=
+  let '(es, ts) := entries_of ds 0%N in
+  {| user := fs0; tmpf := ts; pending := es; next := N.of_nat (List.length ds) |}.
+
 Inductive case :=
 | CHist (fs0 : fs) (ops : list op)
         (impl_outcomes : list outcome)
@@ -48,6 +62,8 @@ Inductive case :=
         (f : fin)
         (impl_after : fs)           (* directory afterwards *)
         (impl_tmps_left : N)        (* temporary files still present afterwards *)
+| CApi (fs0 : fs)                    (* a real writer function (write_pdb, write_gmx_topology, ...) was called *)
+       (impl_before : fs) (impl_dests : list dest) (f : fin) (impl_after : fs) (impl_tmps_left : N)
 | CCli (c : C08.Model.counts) (specs : list (list C08.Model.spec))
        (impl_exit : Z) (impl_new_files : N) (impl_old_intact : bool) (impl_expected_present : bool).
 
@@ -65,6 +81,15 @@ Definition corr (k : case) : bool :=
          | FClose => fs_eqb (user (do_close s)) after && N.eqb (N.of_nat (List.length (tmpf (do_close s)))) nleft
          | FCrash k part => match crash_state s k part with Some u => fs_eqb u after | None => false end
          end
+  | CApi fs0 before dests f after nleft =>
+      let s := state_of fs0 dests in
+      match f with
+      | FWrite => match do_write s with
+                  | Some s' => fs_eqb (user s') after && N.eqb (N.of_nat (List.length (tmpf s'))) nleft
+                  | None => false end
+      | FClose => fs_eqb (user (do_close s)) after && N.eqb (N.of_nat (List.length (tmpf (do_close s)))) nleft
+      | FCrash k part => match crash_state s k part with Some u => fs_eqb u after | None => false end
+      end
   | CCli c specs ex nf intact present =>
       match finish (C08.Model.ignore_warnings_and_count c specs) (init []) with
       | Exit2_no_output => Z.eqb ex 2
@@ -77,6 +102,14 @@ Definition prop (k : case) : bool :=
   | CHist fs0 ops outs before dests f after nleft =>
       let D := map d_path dests in
       fs_eqb fs0 before                       (* destinations untouched until finalisation *)
+      && match f with
+         | FWrite => (negb (noclashb D) || (final_okb fs0 dests after && preservedb fs0 D after)) && N.eqb nleft 0
+         | FClose => fs_eqb fs0 after && N.eqb nleft 0
+         | FCrash _ _ => negb (noclashb D) || preservedb fs0 D after
+         end
+  | CApi fs0 before dests f after nleft =>
+      let D := map d_path dests in
+      fs_eqb fs0 before
       && match f with
          | FWrite => (negb (noclashb D) || (final_okb fs0 dests after && preservedb fs0 D after)) && N.eqb nleft 0
          | FClose => fs_eqb fs0 after && N.eqb nleft 0
